@@ -11,6 +11,7 @@ func init() {
 	vfHarnesses["C17_densify"] = vfhC17Densify
 	vfHarnesses["C17_snap_dp0"] = vfhC17SnapDP0
 	vfHarnesses["C17_reverse"] = vfhC17Reverse
+	vfHarnesses["C17_interpolate_hunt"] = vfhC17InterpolateHunt
 	vfHarnesses["C17_snap_finite_hunt"] = vfhC17SnapFiniteHunt
 	vfHarnesses["C17_densify_repeated"] = vfhC17DensifyRepeated
 }
@@ -146,5 +147,37 @@ func vfhC17SnapFiniteHunt() {
 	c, ok := p.Coordinates()
 	vfAssert(ok, "non-empty")
 	vfAssert(vfFinite(c.X), "SnapToGrid of a finite ordinate is finite")
+	vfReach("end")
+}
+
+// Hunt (precise float64 arithmetic): InterpolatePoint(f), for every float64 f
+// except NaN (infinities and out-of-range fractions included), on lines along the diagonal
+// x=y from (1,1) to (3,3) with a repeated vertex at the start, in the middle or
+// at the end, is a finite point of the line.
+func vfhC17InterpolateHunt() {
+	f := vfFloat64("f")
+	vfAssume(f == f) // NaN fractions are outside the property (they panic: noted in DESIGN 12.3)
+	var ls LineString
+	switch vfInt("shape", 0, 3) {
+	case 0:
+		ls = NewLineStringXY(1, 1, 1, 1, 3, 3)
+	case 1:
+		ls = NewLineStringXY(1, 1, 2, 2, 2, 2, 3, 3)
+	case 2:
+		ls = NewLineStringXY(1, 1, 3, 3, 3, 3)
+	default:
+		ls = NewLineStringXY(1, 1, 2, 2, 3, 3)
+	}
+	p := ls.InterpolatePoint(f)
+	xy, ok := p.XY()
+	vfAssert(ok, "non-empty")
+	vfAssert(vfAnd(vfFinite(xy.X), vfFinite(xy.Y)), "the interpolated point is finite")
+	vfAssert(vfAnd(xy.X == xy.Y, vfAnd(xy.X >= 1, xy.X <= 3)), "and lies on the line")
+	if f <= 0 {
+		vfAssert(xy.X == 1, "fractions <= 0 give the start point")
+	}
+	if f >= 1 {
+		vfAssert(xy.X == 3, "fractions >= 1 give the end point")
+	}
 	vfReach("end")
 }
